@@ -152,7 +152,9 @@ func (ex *Exec) ResetRun() {
 	ex.Events = nil
 	ex.digitMemo = nil
 	ex.KeepHarnessOutcomes = true
+	ex.NoOutcomeMerge = false
 	factsCache = map[int]*facts{}
+	globalConj = nil
 	setTermMemo = map[string]*term.Term{}
 	ex.ymdMemo = nil
 	ex.randN = 0
